@@ -81,6 +81,23 @@ CLAIMS = {
         "per-element factor, range, clamped), float scalars on dyadic operands, unnormalised and normalised quaternion lerp, quaternion slerp (inherent/trait/ref/clamped; acute and obtuse pairs), "
         "Transform lerp and all Transition accessors/constructors/mappers are recorded on exact rationals with token angles and recomputed by TLC."),
   design="§6 C12, §12"),
+ "C14": dict(
+  technique=TRACE_TECH,
+  text=("TLC checks on the specification, for random control points and parameters over Z_46337 (extrapolation included), that the Bernstein form equals de Casteljau and the power-basis form given by "
+        "the coefficient matrices, that the derivative operator is the formal derivative (exact Taylor identity), that the split halves re-parametrise the curve on [0,t] and [t,1] and meet at its "
+        "point, and that elevation, reversal, segment conversion, flips and matrix action preserve the curve as a function of t. Every evaluate/evaluate_derivative/split/matrix/conversion/"
+        "matrix-times-curve call of the four curve types (both layouts, sizes n and n+1) is executed on exact rationals and recomputed by TLC (split via de Casteljau levels, independent of the code's "
+        "closed forms); the unit quarter circle and unit circle are sampled on f64/f32 and TLC checks radius (0.03 %), quadrant and end points in scaled integers."),
+  design="§6 C14, §12"),
+ "C15": dict(
+  technique="TLA+ spec of the extremum/bounds/search/length contracts over exact rationals; derivative roots passed as witnesses that TLC verifies; results recorded from the real code validated by TLC trace validation",
+  text=("Every curve coordinate is constructed from a chosen class of derivative (two rational roots inside/outside/on the ends of [0,1], double root, no real root, linear, constant, zero) so that "
+        "every branch of the code's case analysis is reached; the roots are witnesses that TLC verifies against the control points (factorisation / negative discriminant), which lets TLC compute "
+        "the exact minimum and maximum over [0,1] and check in exact rational arithmetic that min_*/max_*/*_bounds lie in [0,1] and attain them, that reported inflections are zeros of the "
+        "derivative inside the interval and that aabr/aabb equal [min,max] per axis in curve coordinates. Closest-point search (both entry points) is checked in scaled integers: the returned "
+        "point is the curve point at the returned parameter and no farther from the query than any coarse sample and the end point. Discretised length on f64 with TLC-verified chord/polygon "
+        "witnesses: chord <= L_n <= polygon and L_n <= L_2n. Curves with irrational derivative roots are not examined."),
+  design="§6 C15, §12"),
  "C17": dict(
   technique="TLA+ spec (VekOps/VekOpsAlgo) model-checked by TLC exhaustively per bit width; TLC-emitted result tables replayed into the real code (spec->code conformance)",
   text=("TLC checks exhaustively (every (x,lo,hi) of 5-bit types in quick, 8-bit in thorough) that the declarative operators satisfy the range laws of the "
